@@ -2,12 +2,13 @@
 (* Stateless validation of recorded results of numqi.group (code -> spec).  One event per TLC run section:
      table     : a Cayley table built by the library, its left-regular form (as permutations) and the group it claims to be
      classes   : the conjugacy classes reported by get_character_and_class = the classes computed from the table
+     irrepmats : the irreducible blocks themselves, rounded to Gaussian integers at scale S: unitary and D(g) D(h) = D(gh) for ALL g, h
      irreps    : dimensions (and integer characters where all characters are rational) of the irreducible blocks
      pcount    : get_sym_group_num_irrep(N)
      partitions: get_sym_group_young_diagram(N)
      hook      : get_hook_length(shape)
      tableau   : one array returned by get_all_young_tableaux(shape) *)
-EXTENDS Constructions, Partition, Young, Json, IOUtils
+EXTENDS Constructions, Partition, Young, Sets, Json, IOUtils
 Events == JsonDeserialize(IOEnv.TRACE_FILE)
 VARIABLE l
 PT == PTable(60)
@@ -32,6 +33,11 @@ Valid(e) ==
     [] e.op = "regular" -> \E T \in {e.T} : IsGroup(T) /\ LeftRegularOK(T, e.perm)                                          \* a left-regular form of any table
     [] e.op = "irreps" -> IrrepsOK(e)
     [] e.op = "classes" -> \E T \in {e.T} : {{e.classes[i][k] : k \in 1..Len(e.classes[i])} : i \in 1..Len(e.classes)} = Classes(T)       \* get_character_and_class: the conjugacy classes
+    [] e.op = "irrepmats" -> \E T \in {e.T} : \A k \in 1..Len(e.mats) : \E D \in {e.mats[k]} :                                     \* one irreducible block, rounded at scale e.S
+                                /\ Len(D) = Len(T)
+                                /\ \A g \in 1..Len(T) : CoIsoOK(D[g], e.S)                                                     \* unitary
+                                /\ \A g, h \in 1..Len(T) : \A i, j \in 1..Len(D[1]) :                                          \* homomorphism D(g) D(h) = D(gh)
+                                      Near(GSum([x \in 1..Len(D[1]) |-> GMul(D[g][i][x], D[h][x][j])]), GScale(e.S, D[T[g][h]][i][j]), Tol2(e.S))
     [] e.op = "pcount" -> e.p = PT[e.N + 1]
     [] e.op = "partitions" -> \E S \in {Parts(e.N, e.N)} : Len(e.rows) = Cardinality(S) /\ {StripZeros(e.rows[i]) : i \in 1..Len(e.rows)} = S /\ Cardinality(S) = PT[e.N + 1]
     [] e.op = "hook" -> e.f = F(e.shape)
